@@ -216,6 +216,7 @@ func c18(c *core.Ctx, r *core.Report) {
 		r.Fail("infra.anchor-unresolved", "R18.roots|analysis/reachability.findEntryPoints", "", "not found")
 	}
 
+	c18ifaceMethods(c, r)
 	// ---- R18.memo
 	memoRule(c, r, "R18.memo", func(fn *ssa.Function, rel string) bool { return rel == "analysis/reachability" },
 		"methods made callable by a conversion to a different interface (or any callee depending on the missing input) are not marked reachable")
